@@ -186,6 +186,30 @@ def castReduction (cfg : RedCfg) (batch : Shape) (names : Option (List String)) 
     .ok ⟨if cfg.fixedBatch then batch else reduceShape batch ds keep,
          if keep || cfg.fixedBatch then names else names.map (fun ns => dropAt ns ds), .dims ds keepdim⟩
 
+/-- what `reduce=True` does with the leaves: concatenate them and reduce the concatenation -/
+inductive FurtherRed where
+  | flatAll                                            -- no dim: flatten every leaf, cat, reduce everything
+  | feature                                            -- flatten the feature dims, cat along -1, reduce -1
+  | dims (catDim : Nat) (ds : List Nat) (single : Bool) (keepdim : Option Bool)
+  deriving Repr, DecidableEq
+
+/-- mirrors the `further_reduce` branch of tensordict/_td.py:`TensorDict._cast_reduction` (after fix 7dcdffe:
+dims are normalised against the batch dims) -/
+def furtherReduce (batch : Shape) (dim : DimArg) (keepdim : Option Bool) : Except Err FurtherRed :=
+  match dim with
+  | .noDefault => .ok .flatAll
+  | .feature => .ok .feature
+  | .none => .error .type                              -- `torch.cat(..., dim=None)`
+  | .int d =>
+    match correctNegDim d batch.length with
+    | .error e => .error e
+    | .ok n => .ok (.dims n [n] true keepdim)
+  | .tuple ds =>
+    match mapMExcept (fun d => correctNegDim d batch.length) ds with
+    | .error e => .error e
+    | .ok [] => .error .index                          -- `cat_dim = dim[0]`
+    | .ok (n :: ns) => .ok (.dims n (n :: ns) false keepdim)
+
 /-- shape torch gives to one leaf of shape `batch ++ feat` under `LeafRed` -/
 def leafShape (batch feat : Shape) : LeafRed → Shape
   | .all k => if k.getD false then (batch ++ feat).map (fun _ => 1) else []
